@@ -42,7 +42,10 @@ type Report struct {
 	Extra       map[string]interface{} `json:"extra,omitempty"`
 	distinct    map[string]struct{}
 	ReplayDir   string `json:"-"`
-	violSeen    map[string]int
+	// Filter, when set, selects the violation signatures that belong to the property being decided
+	// (a stage shared by several properties evaluates all of its predicates).
+	Filter   func(sig string) bool `json:"-"`
+	violSeen map[string]int
 }
 
 func NewReport(prop, stage string) *Report {
@@ -108,6 +111,9 @@ func (r *Report) DriftAt(msg string) {
 // Violate records a violation; the replay file holds the concrete case.  At
 // most 3 replay files are written per signature.
 func (r *Report) Violate(sig, detail string, kase interface{}) {
+	if r.Filter != nil && !r.Filter(sig) {
+		return
+	}
 	r.mu.Lock()
 	defer r.mu.Unlock()
 	r.ViolCount++
@@ -140,6 +146,17 @@ func (r *Report) Finish() {
 	sort.Slice(r.Violations, func(i, j int) bool { return r.Violations[i].Sig < r.Violations[j].Sig })
 	out, _ := json.Marshal(r)
 	fmt.Println("SUMMARY " + string(out))
+}
+
+// Guard runs fn; a panic escaping from the code under test is recorded as a violation
+// (no input may make a printing / escaping / building call panic) instead of killing the harness.
+func (r *Report) Guard(sig string, kase interface{}, fn func()) {
+	defer func() {
+		if e := recover(); e != nil {
+			r.Violate(sig, fmt.Sprintf("panic in the code under test: %v", e), kase)
+		}
+	}()
+	fn()
 }
 
 // TLCLines feeds fn with each JSON object that TLC printed through
